@@ -39,7 +39,7 @@ UNDOC_OPS = {"eeq", "ene", "notrx", "notlike"}  # documented; recognised or not 
 
 
 def examples(tier):
-    return 560 if tier == "quick" else 8400
+    return 2800 if tier == "quick" else 42000
 
 
 def rx_escape(s):
